@@ -356,7 +356,13 @@ func c13Codecs(run *core.Run) {
 	}
 	defer p.Stop()
 	w := walk.New(p, run.Seed+5)
-	if err := w.Run(80); err != nil {
+	w.HtlcOn = false
+	length := 80
+	if run.Thorough() {
+		length = 600 // several epochs: reward updates, collections, every kind of block many times over
+		w.Stalls = true
+	}
+	if err := w.Run(length); err != nil {
 		core.Fatal("codec walk: %v", err)
 	}
 	w.Drain(30)
